@@ -46,12 +46,18 @@ def _run_body(fi, env, what):
     return ("return", None)
 
 
-def base_env(repo):
-    from ..pkgenv import bind_module_constants
+_PKG = {}
 
+
+def base_env(repo):
+    """The module environment of circuit.py (module-level constants and helper functions evaluated from source)."""
+    from ..pkgenv import Package
+
+    if id(repo) not in _PKG:
+        _PKG[id(repo)] = Package(repo)
     voc = type_vocabulary(repo)
-    env = {"supported_types": list(voc["supported_types"]), "addable_types": list(voc["addable_types"]), "primitive_gates": list(voc["primitive_gates"])}
-    bind_module_constants(repo.tree[FILE], env)  # module-level lookup tables a refactoring may introduce
+    env = dict(_PKG[id(repo)].env(FILE))
+    env.update({"supported_types": list(voc["supported_types"]), "addable_types": list(voc["addable_types"]), "primitive_gates": list(voc["primitive_gates"])})
     return env
 
 
